@@ -749,6 +749,7 @@ func main() {
 	perRun := fs.Bool("per-run-digest", false, "record one digest per run (selftest)")
 	stage := fs.String("stage", "", "sub-stage of the engine (engine specific)")
 	jpgoBin := fs.String("jpgo-bin", "", "real jpgo binary for the stub cross-check (C19)")
+	progressFile := fs.String("progress", "", "memory-mapped (run index, phase) file read by the driver after a fatal crash")
 	fs.Parse(os.Args[2:])
 	if *sites != "" {
 		loadSites(*sites)
@@ -758,6 +759,7 @@ func main() {
 	}
 	loadKnown(*known)
 	zzverifrt.Hook = simrt.Yield
+	progressOpen(*progressFile)
 
 	if pf := os.Getenv("VERIF_PROF"); pf != "" {
 		f, _ := os.Create(pf)
